@@ -375,5 +375,6 @@ void registerInline();
 void registerMorph();
 void registerInOut();
 void registerAdaptor();
+void registerExtra();
 
 } // namespace c11
